@@ -16,7 +16,7 @@
               the field as range; a leaf FLAGGED linear is homogeneous (the premise that the
               A*a -> a*A rewrite needs; nothing is assumed of nonlinear leaves)            *)
 From Coq Require Import ZArith QArith Reals List Bool Ring.
-From Verif Require Import Base.Num Base.Vec C04.Model C04.Cplx C04.Proofs C04.Instances.
+From Verif Require Import Base.Num Base.Vec C04.Model C04.Cplx C04.Proofs C04.Instances C04.Refuted.
 Import ListNotations.
 
 (* T1 (core).  Over ANY commutative ring carried by the Num class (covers R, C, Qc): for every
@@ -69,3 +69,47 @@ Proof.
   exact (fun s o P => @Proofs.build_sound R _ R_ring R_div R_eqb s o (sleaves_pool_ok R_ring s P)).
 Qed.
 Print Assumptions build_sound_pool_real.
+
+(* T1 (flags, soundness).  Whenever the built object is flagged linear, the table value of the
+   expression really is a linear map (homogeneous and additive on the domain) -- for every
+   tree, given that leaves flagged linear are linear. *)
+Theorem flag_sound : forall (T : Type) (N : Num T),
+  ring_theory nzero none_ nadd nmul nsub nopp (@eq T) ->
+  (forall u c : T, ndiv u c = nmul (ndiv none_ c) u) ->
+  (forall a b : T, neqb a b = true -> a = b) ->
+  forall (s : sexpr T) (o : oexpr T), sleaves_ok s -> build s = Ok o -> olin o = true ->
+    (forall (c : T) (x : list T), length x = dim (sdom s) ->
+        denote s (vscal c x) = vscal c (denote s x))
+    /\ (forall x y : list T, length x = dim (sdom s) -> length y = dim (sdom s) ->
+        denote s (vadd x y) = vadd (denote s x) (denote s y)).
+Proof. exact @Proofs.flag_sound. Qed.
+Print Assumptions flag_sound.
+
+(* Flags, completeness: "the linearity flag of the result is the one implied by the expression"
+   ([slin]: sums/compositions of linear operands, scalar and vector multiples of a linear
+   operand are linear).  FULL STATEMENT (false, see flag_complete_refuted):
+       forall s o, sleaves_ok s -> build s = Ok o -> slin s = true -> olin o = true.
+   It holds for every expression that contains no `A * v` with a scalar-valued A: *)
+Theorem flag_complete_partial : forall (T : Type) (N : Num T),
+  ring_theory nzero none_ nadd nmul nsub nopp (@eq T) ->
+  (forall u c : T, ndiv u c = nmul (ndiv none_ c) u) ->
+  (forall a b : T, neqb a b = true -> a = b) ->
+  (forall a : T, neqb a a = true) ->
+  forall (s : sexpr T) (o : oexpr T), sleaves_ok s -> build s = Ok o -> no_sf_rvec s ->
+    slin s = true -> olin o = true.
+Proof. exact @Proofs.flag_complete_partial. Qed.
+Print Assumptions flag_complete_partial.
+
+(* ... and is refuted by  f * v  for a linear Functional f (FunctionalRightVectorMult drops the
+   flag; recorded finding, probe key flag-FunctionalRightVectorMult-drops-linear). *)
+Theorem flag_complete_refuted :
+  exists (s : sexpr R) (o : oexpr R),
+    sleaves_ok s /\ build s = Ok o /\ slin s = true /\ olin o = false.
+Proof. exact flag_complete_refuted_R. Qed.
+
+(* `A + a` for a field-valued operator A that is not a Functional is documented by
+   Operator.__add__ ("other in self.range") but rejected by OperatorVectorSum.__init__
+   (recorded finding, probe key add-scalar-to-field-valued-operator-raises). *)
+Theorem add_scalar_field_range_rejected :
+  build (SAddC (SLeaf (LIP 0 [1%R])) 1%R) = Err TypeErr.
+Proof. exact add_scalar_field_range_rejected_R. Qed.
